@@ -204,9 +204,8 @@ def build_variant(case, commits, path, info):
                 info["merge_with_deletions"] = True
             r.close()
         use_buffered = c["writer"] == "buffered"
-        if use_buffered and (has_columns or any(op[0] == "group" for op in ops)):
-            # BufferedWriter loses column values of buffered documents (finding recorded under C18) and has
-            # no notion of groups (it may flush in the middle of one): use the plain writer there
+        if use_buffered and any(op[0] == "group" for op in ops):
+            # BufferedWriter has no notion of groups (it may flush in the middle of one): use the plain writer there
             use_buffered = False
             info["buffered_avoided"] = info.get("buffered_avoided", 0) + 1
         if use_buffered:
@@ -371,7 +370,7 @@ def run(case, out):
     if info_all.get("buffered_used"):
         out.label("buffered_writer_used")
     if info_all.get("buffered_avoided"):
-        out.exclude("buffered_writer_avoided_columns_or_group", info_all["buffered_avoided"])
+        out.exclude("buffered_writer_avoided_group", info_all["buffered_avoided"])
     if has_del:
         out.label("has_deletes")
     else:
